@@ -65,3 +65,132 @@ Proof. exact handler_frame. Qed.
    re-allocated before a later Service of the same pass has re-assigned its own);
    it is reproduced on the implementation on every run and listed in
    KNOWN_FINDINGS.txt; the ordering theorem above is the part that holds. *)
+
+(* ==== the restart clause ==== *)
+From Coq Require Import Bool.
+From Verif Require Import Model.Net Proofs.AllocPolicyP Proofs.AllocMonoP Proofs.CtrlStarveP Proofs.CtrlRestartP.
+Import ListNotations.
+Local Open Scope N_scope.
+
+(* A new instance (ECrash), the configuration (EPools), any early events of
+   existing Services (dropped by the gate), then the first full pass in ANY order
+   admitted by "more recorded addresses first" and with ANY allocator choices for
+   the other Services: every Service with a recorded status gets exactly its
+   recorded addresses back - in the API and in the new instance's memory -
+   provided the recorded statuses are jointly admissible (M is the allocation
+   state they describe: pairwise exclusive or shareable, each inside a compatible
+   pool of the new configuration, matching the Service's own request) and no
+   Service is a PreferDualStack one holding a single address. *)
+Theorem C06_restart_keeps_recorded : forall rank M w ps evs order ks wc wp we w',
+  Inv M -> PoolCoh M -> s_pools M = ps ->
+  NoDup (map fst (w_api w)) ->
+  (forall s o, recd (w_api w) s o -> recorded_ok rank M s o) ->
+  wstep rank w ECrash = Some wc -> wstep rank wc (EPools ps) = Some wp ->
+  (forall s k, In (s, k) evs -> aget (w_api w) s <> None) -> early rank wp evs = Some we ->
+  wstep rank we (EReload order ks) = Some w' ->
+  forall s o, aget (w_api w) s = Some o -> o_status o <> [] ->
+    (exists o', aget (w_api w') s = Some o' /\ same_ips (o_status o') (o_status o)) /\
+    same_ips (ips_of (c_mem (w_ctl w')) s) (o_status o).
+Proof. exact restart_keeps_recorded. Qed.
+
+(* the per-Service step it rests on *)
+Theorem C06_recorded_service_reassigned_exactly : forall rank a s o k v ok,
+  admissible_now rank a s o -> additional_applies (o_req o) (o_status o) = false ->
+  converge rank a s o k = CR v ok ->
+  ok = true /\ cv_mem v = fst (assign a s (o_req o) (o_status o)) /\ same_ips (cv_status v) (o_status o).
+Proof. exact converge_recorded. Qed.
+
+Definition yrank (x : ip) : N := ip_val x.
+Definition v6a : ip := V6 334965455017026962486023716784190783488.
+Definition v4a : ip := V4 167772160.
+Definition v4b : ip := V4 167772161.
+Definition ypool : pool := {| p_name := 1; p_cidrs := [ {| pfam := F4; pbase := 167772160; plen := 30 |}; {| pfam := F6; pbase := 334965455017026962486023716784190783488; plen := 128 |} ];
+                             p_avoid := false; p_auto := true; p_pin := None |}.
+Definition ypools : pools := {| by_name := [ypool]; by_ns := []; by_sel := [] |}.
+Definition yreq (f : sfam) (pol : policy) (first6 : bool) (port : N) : req :=
+  {| r_ns := 1; r_labels := []; r_fam := f; r_pol := pol; r_first6 := first6;
+     r_ports := [ {| proto := 0; pnum := port |} ]; r_key := {| sharing := 0; backend := 0 |} |}.
+Definition yobj (r : req) : svcobj :=
+  {| o_lb := true; o_req := r; o_cluster_ok := true; o_want := WNone; o_want_pool := None; o_status := []; o_annot := None |}.
+Definition six := yobj (yreq S6 Single true 80).
+Definition dualp := yobj (yreq SDual Prefer false 81).
+Definition kk (c : option (poolid * list ip)) : oracle := {| k_write := true; k_final := c |}.
+(* before the restart: a holds the only IPv6 address, b (PreferDualStack) one IPv4 address *)
+Definition yevs0 : list ev :=
+  [EPools ypools; UPut 1 six; EReload [1] [kk (Some (1, [v6a]))]; ESvc 1 (kk None); UPut 2 dualp; ESvc 2 (kk (Some (1, [v4a])))].
+
+Definition v4only := yobj (yreq S4 Single false 81).
+
+(* non-vacuity: a reachable quiescent world whose memory is the M of the theorem *)
+Definition yevs_ok : list ev :=
+  [EPools ypools; UPut 1 six; EReload [1] [kk (Some (1, [v6a]))]; ESvc 1 (kk None); UPut 2 v4only; ESvc 2 (kk (Some (1, [v4a])))].
+Example C06_restart_hypotheses_nonvacuous :
+  exists w, wrun yrank yevs_ok world0 = Some w /\ quiescent w /\
+    Inv (c_mem (w_ctl w)) /\ PoolCoh (c_mem (w_ctl w)) /\ NoDup (map fst (w_api w)) /\
+    (exists s o, recd (w_api w) s o) /\
+    (forall s o, recd (w_api w) s o -> recorded_ok yrank (c_mem (w_ctl w)) s o).
+Proof.
+  destruct (wrun yrank yevs_ok world0) as [w|] eqn:E; [|vm_compute in E; discriminate].
+  exists w. split; [reflexivity|].
+  pose proof (wrun_WInv yrank yevs_ok world0 w WInv_world0 E) as [[HI HP] _ _ _ _].
+  vm_compute in E. injection E as <-. cbn [w_ctl c_mem] in HI, HP.
+  split; [repeat split|]. split; [exact HI|]. split; [exact HP|].
+  split; [repeat constructor; cbn; intuition discriminate|].
+  split; [exists 1, (with_status six [v6a] (Some 1)); unfold recd; split; [reflexivity|cbn; discriminate]|].
+  intros s o [Hs Hst]. unfold aget in Hs.
+  match type of Hs with option_map _ ?f = _ => destruct f as [[s' o']|] eqn:F; [|discriminate Hs] end.
+  cbn [option_map snd] in Hs. injection Hs as ->. apply find_some in F. destruct F as [Hin Heq].
+  cbn [fst] in Heq. apply N.eqb_eq in Heq. subst s'.
+  destruct Hin as [Hin|[Hin|[]]]; injection Hin as <- <-.
+  - constructor; [|eexists; repeat split; reflexivity|reflexivity].
+    repeat split; try reflexivity; try discriminate. eexists. split; [vm_compute; reflexivity|]. split; [intros p Hp; discriminate|left; reflexivity].
+  - constructor; [|eexists; repeat split; reflexivity|reflexivity].
+    repeat split; try reflexivity; try discriminate. eexists. split; [vm_compute; reflexivity|]. split; [intros p Hp; discriminate|left; reflexivity].
+Qed.
+
+(* F14: with a PreferDualStack Service holding one address the clause is false of
+   the faithful model: handled first, it takes the IPv6 address recorded for the
+   other Service, whose own (individually admissible) status is then cleared *)
+Theorem C06_restart_prefer_single_address_refuted :
+  exists evs0 evs1 w w' o, wrun yrank evs0 world0 = Some w /\ quiescent w /\
+    wrun yrank evs1 w = Some w' /\ evs1 = [ECrash; EPools ypools; EReload [2; 1] [kk (Some (1, [v4a; v6a])); kk None]] /\
+    aget (w_api w) 1 = Some o /\ o_status o = [v6a] /\ admissible_now yrank (c_mem (w_ctl w)) 1 o /\
+    exists o', aget (w_api w') 1 = Some o' /\ o_status o' = [].
+Proof.
+  destruct (wrun yrank yevs0 world0) as [w|] eqn:E; [|vm_compute in E; discriminate].
+  set (evs1 := [ECrash; EPools ypools; EReload [2; 1] [kk (Some (1, [v4a; v6a])); kk None]]).
+  destruct (wrun yrank evs1 w) as [w'|] eqn:E'; [|vm_compute in E; injection E as <-; vm_compute in E'; discriminate].
+  exists yevs0, evs1, w, w', (with_status six [v6a] (Some 1)).
+  vm_compute in E. injection E as <-. vm_compute in E'. injection E' as <-.
+  split; [reflexivity|]. split; [repeat split|]. split; [reflexivity|]. split; [reflexivity|].
+  split; [reflexivity|]. split; [reflexivity|]. split.
+  - repeat split; try reflexivity; try discriminate. eexists. split; [vm_compute; reflexivity|]. split; [intros p Hp; discriminate|left; reflexivity].
+  - eexists. split; reflexivity.
+Qed.
+
+(* F21: when another Service's recorded address is NOT admissible any more (its
+   pool was shrunk), that Service is re-allocated during the same pass and, handled
+   first, takes the address recorded for a Service handled later *)
+Definition zpool (len : N) (base : N) : pool :=
+  {| p_name := 1; p_cidrs := [ {| pfam := F4; pbase := base; plen := len |} ]; p_avoid := false; p_auto := true; p_pin := None |}.
+Definition zpools (len base : N) : pools := {| by_name := [zpool len base]; by_ns := []; by_sel := [] |}.
+Definition zevs0 : list ev :=
+  [EPools (zpools 30 167772160); UPut 1 v4only; EReload [1] [kk (Some (1, [v4a]))]; ESvc 1 (kk None);
+   UPut 2 v4only; ESvc 2 (kk (Some (1, [v4b])))].
+Theorem C06_restart_inadmissible_neighbour_refuted :
+  exists evs0 evs1 w w' o, wrun yrank evs0 world0 = Some w /\ quiescent w /\
+    wrun yrank evs1 w = Some w' /\ evs1 = [ECrash; EPools (zpools 32 167772161); EReload [1; 2] [kk (Some (1, [v4b])); kk None]] /\
+    aget (w_api w) 2 = Some o /\ o_status o = [v4b] /\
+    admissible_now yrank (set_pools (c_mem (w_ctl w)) (zpools 32 167772161)) 2 o /\
+    exists o', aget (w_api w') 2 = Some o' /\ o_status o' = [].
+Proof.
+  destruct (wrun yrank zevs0 world0) as [w|] eqn:E; [|vm_compute in E; discriminate].
+  set (evs1 := [ECrash; EPools (zpools 32 167772161); EReload [1; 2] [kk (Some (1, [v4b])); kk None]]).
+  destruct (wrun yrank evs1 w) as [w'|] eqn:E'; [|vm_compute in E; injection E as <-; vm_compute in E'; discriminate].
+  exists zevs0, evs1, w, w', (with_status v4only [v4b] (Some 1)).
+  vm_compute in E. injection E as <-. vm_compute in E'. injection E' as <-.
+  split; [reflexivity|]. split; [repeat split|]. split; [reflexivity|]. split; [reflexivity|].
+  split; [reflexivity|]. split; [reflexivity|]. split.
+  - repeat split; try reflexivity; try discriminate. eexists. split; [vm_compute; reflexivity|]. split; [intros p Hp; discriminate|left; reflexivity].
+  - eexists. split; reflexivity.
+Qed.
